@@ -151,10 +151,13 @@ func (r *Remote) receive(ctx context.Context, ID json.RawMessage) (*Message, err
 
 // Call handles sending an RPC and receiving the corresponding response synchronously.
 func (r *Remote) Call(ctx context.Context, result interface{}, method string, params ...interface{}) error {
+	r.mu.Lock()
 	if r.Client == nil {
 		r.Client = &Client{}
 	}
-	req, err := r.Client.Request(method, params...)
+	client := r.Client
+	r.mu.Unlock()
+	req, err := client.Request(method, params...)
 	if err != nil {
 		return err
 	}
